@@ -585,6 +585,7 @@ func c19Table(r *rng, id string) {
 }
 
 func TestC19(t *testing.T) {
+	runSel(t, "C19", 940)
 	n := envInt("VERIF_N", 1500)
 	if thorough() {
 		n = envInt("VERIF_N", 60000)
